@@ -26,6 +26,11 @@ CLAIMED = {
             "After every explored history Reset must make the instance bisimilar (text, tags, choices, globals, counts, canonical save, callbacks of the still-attached observers/externals/handler) to Story::new with the same seed, for two setups (with and without error handler); a path jump with call-stack reset must keep globals and counts and leave exactly one thread with one call-stack element and no pending choice.",
             "Trusted: observation function; the harness clears its own callback log when reset_state returns Ok. A reset refused while a time-limited continue is unfinished is not judged here (C08).",
             "DESIGN.md §5 C17"),
+    "C03": ("exploration",
+            "bounded exhaustive enumeration of programs x all choice paths, each executed under every configuration: hash/rng entropy values through an LD_PRELOAD getrandom shim (one worker process per value), two in-process repeats, separate processes, debug and release builds; transcripts (full observation + canonical save) and compiled output compared for identity",
+            "462 (quick) cases weighted as the property asks: 7 multi-origin list values with tied item values x 15 list expressions (LIST_MIN/MAX/RANDOM/VALUE/ALL/INVERT/RANGE, list-from-int, +-n, printing, comparisons, results stored and reused), shuffles, RANDOM/SEED_RANDOM, many globals, the base pool with and without flows, the segment family, and the corpus (repository compiler on the sources + reference JSON): every configuration must give the identical transcript and byte-identical compiled JSON. The reach of the entropy dimension is measured (probe map orders) and two processes with equal entropy are required to agree.",
+            "Trusted: the shim owns getrandom/getentropy (std RandomState keys and rand::rng()); hash keys are enumerated over 8 (quick) / 32 (thorough) entropy values, not over all 2^128 keys; the debug build covers the tie/random/base cases in the quick tier.",
+            "DESIGN.md §5 C03"),
     "C04": ("fault_enumeration",
             "bounded exhaustive enumeration of fault-prone programs (operator x operand pair x position, fault statements, every single-token edit of corpus sources that still compiles) x all choice paths x host-call probes at every node, executed on the real runtime in the release build and, in a second process, in the debug build (overflow checks on); oracles: no panic, 32-bit wrapping results, reset-replay, cross-profile transcript equality",
             "Every case is compiled by the repository's compiler and played along every choice path (depth <= 6) with and without handler; at every node save_state, save+load into a fresh story, a flow switch, path jumps and host function evaluation are probed. No call may panic; Int + - * and unary minus must print the 32-bit wrapping result; after an error reset_state + the same history replays like the first run; the debug build must produce the same transcript for every case in the debug set.",
